@@ -1,2 +1,16 @@
 import BklProofs.C13
-#print axioms Bkl.C13_placeholder
+#print axioms Bkl.C13_scan_spec
+#print axioms Bkl.C13_scan_render
+#print axioms Bkl.C13_interp_spec
+#print axioms Bkl.C13_interp_no_fuel
+#print axioms Bkl.C13_missing_is_error
+#print axioms Bkl.C13_getWithVar_error
+#print axioms Bkl.C13_getWithVar_var
+#print axioms Bkl.C13_ref_simple_key
+#print axioms Bkl.C13_ref_simple_key_missing
+#print axioms Bkl.C13_env_is_lookup
+#print axioms Bkl.C13_env_bound
+#print axioms Bkl.C13_env_unbound
+#print axioms Bkl.C13_env_is_string
+#print axioms Bkl.C13_plain_string_untouched
+#print axioms Bkl.C13_env_in_key
